@@ -266,12 +266,23 @@ Fixpoint remove_timer (p : nat) (t : Z) (l : list (nat * Z)) : option (list (nat
                    else match remove_timer p t r with Some r' => Some ((q, u) :: r') | None => None end
   end.
 
-(* an expiry timer fires: the partition is no longer counted (v2 checks the index, which
-   a shrink may have removed), the released event is raised, the capacity recomputed *)
+(* an expiry timer fires: the partition is no longer counted, the released event is raised, the
+   capacity recomputed.  v2 checks the index, which a shrink may have removed, and (after the repair
+   of D9) that the partition still holds the lease this timer was started for: a partition that
+   was dropped by a resize and acquired again carries a later expiry and is left alone *)
+Definition clear_part (c : scfg) (s : sstate) (p : nat) : list (option Z) :=
+  match sc_gen c with
+  | V1 => set_nth p None (s_parts s)
+  | V2 => match nth_error (s_parts s) p with
+          | Some (Some e) => if e =? s_now s then set_nth p None (s_parts s) else s_parts s
+          | _ => s_parts s
+          end
+  end.
+
 Definition do_expire (c : scfg) (s : sstate) (p : nat) : option (sstate * list sobs) :=
   match remove_timer p (s_now s) (s_timers s) with
   | Some timers =>
-      let s1 := s <| s_timers := timers |> <| s_parts := set_nth p None (s_parts s) |> in
+      let s1 := s <| s_timers := timers |> <| s_parts := clear_part c s p |> in
       match sc_gen c with
       | V2 => if s_stop_req s then None   (* the timer goroutine ended with the context *)
               else let s2 := calc s1 in Some (s2, [SOEvReleased p; SOEvCapacity (capacity s2)])
